@@ -41,7 +41,10 @@ Canonical(sizeC, exts) ==
    \o [i \in 1..Len(exts) |-> L("ext", exts[i], IF i = 1 THEN "foo" ELSE "bar", "ok2")]
    \o <<L("oid", -1, "", "ok1"), L("size", -1, "", sizeC)>>
 
-Init == /\ \E s \in SizeCanon, e \in ExtSets : doc = Canonical(s, e)
+\* start from a canonical pointer, or from the empty document (docs/spec.md: "an empty file is the
+\* pointer for an empty file"; anything else without lines - white space only - is not)
+Init == /\ \/ \E s \in SizeCanon, e \in ExtSets : doc = Canonical(s, e)
+           \/ doc = <<>>
         /\ nedits = 0 /\ trail = "none"
 
 \* edits --------------------------------------------------------------------
@@ -110,7 +113,8 @@ IsCanonicalDoc ==
   /\ \A i \in 2..(Len(doc) - 2) : doc[i].key = "ext" /\ ValOK(doc[i])
   /\ \A i \in 2..(Len(doc) - 3) : doc[i].prio < doc[i + 1].prio
 
-Verdict == IF IsCanonicalDoc THEN "accept" ELSE IF MustReject THEN "reject" ELSE "either"
+IsEmptyDoc == doc = <<>> /\ trail = "none"
+Verdict == IF IsEmptyDoc THEN "empty" ELSE IF IsCanonicalDoc THEN "accept" ELSE IF MustReject THEN "reject" ELSE "either"
 
 \* the pointer(s) the document may denote if accepted
 Denotes == [oids  |-> {doc[i].val : i \in GoodLines("oid")},
